@@ -599,6 +599,62 @@ def anonymise(doc, mode):
             walk(pj.get("blocks"), kp)
 
 
+_FIELD_TABLE = None
+
+
+def canonicalise_fields(doc):
+    """Undo *renames* of struct fields relative to the pinned tree (jbv/pinned_fields.json: per ADT and
+    variant the field names by position).  If a variant of the table has the same number of fields
+    and a field whose name is not among the recorded ones sits where a recorded name is now missing,
+    the field gets its recorded name back: in the ADT facts, in every place projection (they carry
+    the ADT path and the field index) and in aggregate literals.  A pure reordering is left alone."""
+    global _FIELD_TABLE
+    if _FIELD_TABLE is None:
+        try:
+            _FIELD_TABLE = json.load(open(os.path.join(os.path.dirname(os.path.abspath(__file__)), "pinned_fields.json")))
+        except OSError:
+            _FIELD_TABLE = {}
+    table = _FIELD_TABLE
+    ren = {}   # (adt path, variant name or index, field index) -> recorded name
+    for a in doc.get("adts", []):
+        rec = table.get(a["path"])
+        if not rec:
+            continue
+        for vi, v in enumerate(a.get("variants", [])):
+            r = rec.get(v["name"])
+            act = [f["name"] for f in v["fields"]]
+            if r is None or len(r) != len(act) or act == r or sorted(act) == sorted(r):
+                continue
+            for i, (x, y) in enumerate(zip(act, r)):
+                if x != y and x not in r and y not in act:
+                    ren[(a["path"], v["name"], i)] = y
+                    ren[(a["path"], None, i)] = y if len(a["variants"]) == 1 else ren.get((a["path"], None, i))
+                    v["fields"][i]["name"] = y
+    if not ren:
+        return
+
+    def walk(o, variant=None):
+        if isinstance(o, dict):
+            if o.get("k") == "field" and "i" in o and o.get("of"):
+                y = ren.get((o["of"], None, o["i"]))
+                if y:
+                    o["name"] = y
+            if o.get("k") == "adt" and "fields" in o and o.get("def"):
+                for i in range(len(o["fields"])):
+                    y = ren.get((o["def"], o.get("variant"), i)) or ren.get((o["def"], None, i))
+                    if y:
+                        o["fields"][i] = y
+            for v in o.values():
+                walk(v)
+        elif isinstance(o, list):
+            for v in o:
+                walk(v)
+    for b in doc["bodies"]:
+        walk(b.get("blocks"))
+        for pj in b.get("promoted") or []:
+            walk(pj.get("blocks"))
+
+
 _PARAM_TABLE = None
 
 
@@ -712,7 +768,14 @@ class Program:
             anonymise(doc, mode)
         if not os.environ.get("JBV_NO_CANON"):
             canonicalise_params(doc)
-        return cls(doc)
+            canonicalise_fields(doc)
+        inl = []
+        if not os.environ.get("JBV_NO_INLINE") and doc.get("crate") == "jbonsai":
+            from .inline import inline_new_helpers
+            inl = inline_new_helpers(doc)
+        prog = cls(doc)
+        prog.inlined = inl
+        return prog
 
     def body(self, path):
         return self.bodies.get(path)
